@@ -2,6 +2,10 @@
 """Regenerates the seeded-changes table of DESIGN.md section 11.6 from seeded/*/meta.json."""
 import json, glob, os, re
 NOTES = {
+ 'C19-r8-size-not-len-partly-consumed-reader': 'Strengthened: first missed; exports now also read from readers of the standard library (strings, bytes, Buffer, SectionReader, bufio, LimitReader, MultiReader), fresh, partly consumed or positioned by Seek.',
+ 'C16-r8-shared-error-annotated-in-place': 'Strengthened: first missed; the concurrent jobs now cover every error path of every decoder kind (incomplete vectors, deferred unsupported-metric error, other versions, v2 group and order defects) and the full rendering of an error belongs to the compared outcome.',
+ 'C15-r8-default-options-shared-pointer': 'Strengthened: first caught by C17 only; the three processing orders of C15 now also record the report built without options while reports in four languages are interleaved.',
+ 'C12-r8-env-score-memo-not-reset-by-view-decode': 'Strengthened: first caught by C15 only; the histories now ask the score, severity and encoding once right after the first Decode, so that a value remembered from before a field reset is served to the closing battery.',
  'C01-r7-score-memo-key-overflow': 'Strengthened: C01 first missed it (it needs a query on a partially decoded object); the score harnesses now decode every base vector once more with a seeded query asked of the receiver at every token boundary (decodeOne hook) and once through nil receivers.',
  'C02-r7-nil-receiver-rc-default': 'Strengthened: first missed; the score harnesses now also decode through typed nil receivers with the optional metrics omitted.',
  'C09-r7-score-shallow-copy-writes-scope': 'Strengthened: the fields are read again after the queries (f2); as worded C09 speaks of the fields Decode produced, the mutation by Score() is C15 matter and was caught there from the start.',
